@@ -37,7 +37,7 @@ func tick() int { return int(atomic.AddInt64(&seq, 1)) }
 
 const blockedRs = 1 << 30
 
-var callTimeout = 4 * time.Second
+var callTimeout = 20 * time.Second
 
 // Meta is the part of an event every component shares.
 type Meta struct {
@@ -105,23 +105,40 @@ func runHistory(h int, setup []op, conc [][]op, final func() []op) (events []op,
 			}
 		}
 		var wg sync.WaitGroup
-		var start int32
+		// round barriers: the k-th calls of all goroutines are released together, so that they really overlap
+		rounds := 0
+		for _, list := range conc {
+			if len(list) > rounds {
+				rounds = len(list)
+			}
+		}
+		need := make([]int32, rounds)
+		arrived := make([]int32, rounds)
+		for _, list := range conc {
+			for r := range list {
+				need[r]++
+			}
+		}
+		var abort int32
 		for _, list := range conc {
 			wg.Add(1)
 			go func(list []op) {
 				defer wg.Done()
-				for atomic.LoadInt32(&start) == 0 {
-					runtime.Gosched()
-				}
-				for _, o := range list {
+				for r, o := range list {
+					atomic.AddInt32(&arrived[r], 1)
+					for spin := 0; atomic.LoadInt32(&arrived[r]) < need[r] && atomic.LoadInt32(&abort) == 0; spin++ {
+						if spin > 30000 {
+							runtime.Gosched()
+						}
+					}
 					execOp(o)
 					if o.meta().Out != "ok" {
+						atomic.StoreInt32(&abort, 1)
 						return
 					}
 				}
 			}(list)
 		}
-		atomic.StoreInt32(&start, 1)
 		wg.Wait()
 		if final != nil {
 			fs := final()
@@ -217,7 +234,7 @@ func main() {
 		excl := fs.String("exclude", "", "comma-separated operation names left out of the concurrent phase")
 		out := fs.String("out", "", "")
 		full := fs.Bool("full", false, "")
-		tmo := fs.Int("timeout-ms", 4000, "")
+		tmo := fs.Int("timeout-ms", 20000, "")
 		fs.Parse(os.Args[2:])
 		callTimeout = time.Duration(*tmo) * time.Millisecond
 		c := &runConf{comp: *comp, seed: *seed, hist: *hist, gor: *gor, ops: *ops, mix: *mix, out: *out, full: *full,
@@ -249,9 +266,7 @@ func main() {
 			if blocked {
 				nblocked++
 				fmt.Fprintf(os.Stderr, "BLOCKED history %d of %s\n", h, c.comp)
-				if nblocked >= 3 {
-					break
-				}
+				break // the goroutines of a blocked history keep spinning / holding locks: stop here
 			}
 		}
 	case "pair":
@@ -261,11 +276,42 @@ func main() {
 		b := fs.String("b", "", "")
 		iters := fs.Int("iters", 3000, "")
 		seed := fs.Int64("seed", 1, "")
-		tmo := fs.Int("timeout-ms", 4000, "")
+		tmo := fs.Int("timeout-ms", 20000, "")
 		single := fs.Bool("single", false, "run only method a, twice in a row on one goroutine (self-deadlock / lock leak)")
 		fs.Parse(os.Args[2:])
 		callTimeout = time.Duration(*tmo) * time.Millisecond
 		os.Exit(runPair(*comp, *a, *b, *iters, *seed, *single))
+	case "seqprobe":
+		// which SEQUENTIAL call patterns of the attestation pool work on this tree (they panic while the C20 findings
+		// are open); the runner widens the concurrent call patterns accordingly (-full)
+		res := map[string]bool{}
+		try := func(name string, f func()) {
+			ok := true
+			func() {
+				defer func() {
+					if r := recover(); r != nil {
+						ok = false
+					}
+				}()
+				f()
+			}()
+			res[name] = ok
+		}
+		try("att_aggregate_ok", func() {
+			s := newPoolSession()
+			e := s.ev("AddAtt")
+			e.Att = Att{Slot: 1, Index: 0, Epoch: 0, Var: 0, Bits: []int{1, 1, 0}, Sig: "x", Comm: committee(1, 0, 3)}
+			s.prepare(e).run()
+		})
+		try("att_search_ok", func() {
+			s := newPoolSession()
+			e := s.ev("AddAtt")
+			e.Att = Att{Slot: 1, Index: 0, Epoch: 0, Var: 0, Bits: []int{1, 0, 0}, Sig: "x", Comm: committee(1, 0, 3)}
+			s.prepare(e).run()
+			s.ev("Search").run()
+		})
+		b, _ := json.Marshal(res)
+		fmt.Println(string(b))
 	default:
 		os.Exit(2)
 	}
